@@ -62,29 +62,55 @@ let propose (ws : n list list) (obs : content option) : n list list =
         | x :: a', y :: b' -> if x = y then strip a' b' else None
         | _ :: _, [] -> None in
       let lf = n_of_int 10 in
-      let rec picks pre = function
-        | [] -> []
-        | x :: r -> (x, List.rev_append pre r) :: picks (x :: pre) r in
-      let rec go rem t acc =
-        match rem with
-        | [] -> if t = [] then Some (List.rev acc) else None
-        | _ ->
-            if t = [] then Some (List.rev_append acc rem) else
-            let rec try_ = function
-              | [] -> None
-              | (w, rest) :: more ->
-                  (match strip (w @ [lf]) t with
-                   | Some t' -> (match go rest t' (w :: acc) with Some r -> Some r | None -> try_ more)
-                   | None -> try_ more) in
-            (match try_ (picks [] rem) with
-             | Some r -> Some r
-             | None ->
-                 (* the tail is an unfinished line *)
-                 let rec tail_ = function
-                   | [] -> None
-                   | (w, rest) :: more -> (match strip t (w @ [lf]) with Some _ -> Some (List.rev_append acc (w :: rest)) | None -> tail_ more) in
-                 tail_ (picks [] rem)) in
-      (match go ws t [] with Some r -> r | None -> ws)
+      if not (List.exists (List.exists (fun c -> c = lf)) ws) then begin
+        (* no word contains LF: the complete lines of the content are the words, in order (linear time) *)
+        let rec split cur acc = function
+          | [] -> (List.rev acc, List.rev cur)
+          | c :: r -> if c = lf then split [] (List.rev cur :: acc) r else split (c :: cur) acc r in
+        let (full, tail) = split [] [] t in
+        let avail = Hashtbl.create 64 in
+        List.iter (fun w -> Hashtbl.replace avail w (1 + (try Hashtbl.find avail w with Not_found -> 0))) ws;
+        let ok = ref true in
+        List.iter (fun l -> match Hashtbl.find_opt avail l with
+                            | Some k when k > 0 -> Hashtbl.replace avail l (k - 1)
+                            | _ -> ok := false) full;
+        if not !ok then ws else begin
+          (* the words not used by the complete lines, in the model's order; the one the tail starts first *)
+          let rem = List.filter (fun w -> match Hashtbl.find_opt avail w with
+                                          | Some k when k > 0 -> Hashtbl.replace avail w (k - 1); true
+                                          | _ -> false) ws in
+          let rec first_with pre = function
+            | [] -> None
+            | w :: r -> (match strip tail w with Some _ -> Some (w :: List.rev_append pre r) | None -> first_with (w :: pre) r) in
+          let rem = if tail = [] then rem else (match first_with [] rem with Some r -> r | None -> rem) in
+          full @ rem
+        end
+      end else begin
+        (* some word contains LF (malformed stream, short lists): backtracking *)
+        let rec picks pre = function
+          | [] -> []
+          | x :: r -> (x, List.rev_append pre r) :: picks (x :: pre) r in
+        let rec go rem t acc =
+          match rem with
+          | [] -> if t = [] then Some (List.rev acc) else None
+          | _ ->
+              if t = [] then Some (List.rev_append acc rem) else
+              let rec try_ = function
+                | [] -> None
+                | (w, rest) :: more ->
+                    (match strip (w @ [lf]) t with
+                     | Some t' -> (match go rest t' (w :: acc) with Some r -> Some r | None -> try_ more)
+                     | None -> try_ more) in
+              (match try_ (picks [] rem) with
+               | Some r -> Some r
+               | None ->
+                   (* the tail is an unfinished line *)
+                   let rec tail_ = function
+                     | [] -> None
+                     | (w, rest) :: more -> (match strip t (w @ [lf]) with Some _ -> Some (List.rev_append acc (w :: rest)) | None -> tail_ more) in
+                   tail_ (picks [] rem)) in
+        if List.length ws > 40 then ws else (match go ws t [] with Some r -> r | None -> ws)
+      end
 
 let dump tb s urls =
   let at p = match x_words_at tb p s with Some ws -> show_words ws | None -> "E" in
